@@ -373,13 +373,22 @@ def response_constructors_rule(rep, prog, cfg):
     into_single_frame unwrap audited in C12/C08)."""
     rule = "C03.response-ctor"
     allowed = {RB + "finish", RB + "error", "mpd_protocol::response::Response::empty"}
+    ctor_roots = set()
+    for b in prog.bodies.values():
+        if b.crate == "mpd_protocol" and not b.raw.get("derived"):
+            for bb, i, s in b.stmts():
+                if s["k"] == "assign" and s["rv"]["k"] == "agg" and s["rv"]["agg"] == "adt" and norm(s["rv"]["adt_name"]) == "mpd_protocol::response::Response":
+                    ctor_roots.add(norm(prog.bodies.get(b.root, b).name))
+    # a private function all of whose callers are allowed is part of them (`complete(error)` shared by finish and error)
+    from ..common import helper_owners
+    owned = helper_owners(prog, ctor_roots, allowed)
     for b in prog.bodies.values():
         if b.crate != "mpd_protocol" or b.raw.get("derived"):
             continue
         for bb, i, s in b.stmts():
             if s["k"] == "assign" and s["rv"]["k"] == "agg" and s["rv"]["agg"] == "adt" and norm(s["rv"]["adt_name"]) == "mpd_protocol::response::Response":
                 root = norm(prog.bodies.get(b.root, b).name)
-                rep.check(root in allowed, rule, "%s/%s" % (cfg, root), b.loc(s["span"]),
+                rep.check(root in allowed or root in owned, rule, "%s/%s" % (cfg, root), b.loc(s["span"]),
                           "%s constructs a Response outside the builder: the invariant 'at least one frame or an error' (relied on by into_single_frame) is not established there" % root)
 
 
